@@ -195,7 +195,7 @@ func (g *extGen) trap(v int) *model.Ext {
 }
 
 // builtinDupMenu are built-in formats an extension may be named after in a collide run.
-var builtinDupMenu = []string{"application/json", "application/zip", "image/png", "application/pdf", "text/csv", "application/gzip", "image/svg+xml", "application/x-ole-storage", "application/geo+json",
+var builtinDupMenu = []string{"application/octet-stream", "application/octet-stream", "application/octet-stream", "application/octet-stream", "application/json", "application/zip", "image/png", "application/pdf", "text/csv", "application/gzip", "image/svg+xml", "application/x-ole-storage", "application/geo+json",
 	// strings that built-in formats carry as ALIASES (kept only where the pristine tree confirms it)
 	"application/x-zip-compressed", "audio/x-wav", "application/x-gzip", "audio/mp3", "application/x-pdf", "audio/x-flac", "image/x-ms-bmp", "application/x-tar", "text/x-csv", "application/x-rar", "video/x-m4v", "audio/x-m4a", "application/msword", "text/rtf", "application/x-javascript", "image/x-icon", "application/xml"}
 
@@ -305,8 +305,21 @@ func (g *extGen) ext() *model.Ext {
 	}
 	attached := false
 	var dupOf *model.Ext
-	if len(g.made) > 0 && g.r.Chance(1, 3) {
+	var named []*model.Ext // earlier extensions that carry a built-in format's name
+	for _, m := range g.made {
+		for _, nm := range g.builtinDup {
+			if m.Mime == nm {
+				named = append(named, m)
+				break
+			}
+		}
+	}
+	if len(g.made) > 0 && (g.r.Chance(1, 3) || (len(named) > 0 && g.r.Chance(1, 2))) {
 		p := g.made[g.r.Intn(len(g.made))]
+		if len(named) > 0 && g.r.Chance(2, 3) {
+			// what hangs below a format that shares its name with a built-in one (found through an alias)
+			p = named[g.r.Intn(len(named))]
+		}
 		var names []string
 		for _, nm := range p.Names() {
 			if !g.dupName[nm] && !g.ambiguous[nm] && g.mayLookup(nm) {
